@@ -300,7 +300,111 @@ func (c *checker) ndDropped(i int) bool {
 
 // ---- the check ---------------------------------------------------------------------------------------------------
 
+// ---- histories: state carried across requests ------------------------------------------------------------------------
+
+func renderBody(b *Batch) ([]byte, [][2]int, error) {
+	if b.Proto == "otlp" {
+		body, err := renderOTLP(b)
+		return body, nil, err
+	}
+	body, offs := renderZipkinOffsets(b)
+	return body, offs, nil
+}
+
+// snapshot is a deep, independent image of what the parser handed over.
+func snapshot(p *parsed) string {
+	b, _ := json.Marshal(struct {
+		S any
+		T any
+	}{p.spans, p.tags})
+	return string(b)
+}
+
+// judge runs the row and read-back oracles for one body on the rows as stored now.
+func (c *checker) judge(st *stored) int {
+	c.checkBlockShape(st)
+	exps := make([]*expect, len(c.b.Spans))
+	for i := range c.b.Spans {
+		exps[i] = c.b.expectFor(i)
+	}
+	c.checkTraceRows(st, exps)
+	c.checkTagRows(st, exps)
+	return c.checkReadBack(st, exps)
+}
+
+func checkHistory(orig *Batch) *wkpool.CaseResult {
+	a := *orig
+	a.Then, a.History = nil, ""
+	bb := orig.Then
+	res := &wkpool.CaseResult{Counters: map[string]int64{}, Key: shortHash(orig.shapeKey())}
+	mk := func(b *Batch) *checker {
+		return &checker{b: b, orig: orig, dropped: map[int]bool{}, res: &wkpool.CaseResult{Counters: map[string]int64{}}, seen: map[string]bool{}}
+	}
+	ca, cb := mk(&a), mk(bb)
+	bodyA, offsA, err1 := renderBody(&a)
+	bodyB, offsB, err2 := renderBody(bb)
+	if err1 != nil || err2 != nil {
+		res.Outcomes = append(res.Outcomes, "render_error")
+		return res
+	}
+	ca.offs, cb.offs = offsA, offsB
+	pa := parse(&a, bodyA, nil)
+	res.RealTraces++
+	if pa.err != nil {
+		res.Outcomes = append(res.Outcomes, "history:first_body_rejected")
+		return res
+	}
+	snapA := snapshot(pa)
+	if orig.History == "retry" {
+		// first attempt: the rows are copied into the column buffers, the INSERT fails, the block is dropped
+		if _, perr := process(pa); perr != "" {
+			ca.viol(a.Proto+"_process_request_failed", "history %s, first attempt: %s", orig.History, perr)
+		}
+	}
+	pb := parse(bb, bodyB, nil)
+	res.RealTraces++
+	if pb.err != nil {
+		res.Outcomes = append(res.Outcomes, "history:second_body_rejected")
+		return res
+	}
+	stb, perr := process(pb)
+	if perr != "" {
+		cb.viol(bb.Proto+"_process_request_failed", "history %s, second body: %s", orig.History, perr)
+	} else {
+		cb.judge(stb)
+	}
+	// hand-over immutability: what the parser handed over for A must not change because another body was decoded
+	if now := snapshot(pa); now != snapA {
+		ca.viol("handed_over_batch_changed_by_later_request", "history %s: the %s batch handed over for the first body changed after a %s body was decoded (before: %.160s… now: %.160s…)", orig.History, a.Proto, bb.Proto, snapA, now)
+	}
+	sta, perr := process(pa)
+	na := 0
+	if perr != "" {
+		ca.viol(a.Proto+"_process_request_failed", "history %s, first body consumed after the second: %s", orig.History, perr)
+	} else {
+		na = ca.judge(sta)
+	}
+	for _, x := range []struct {
+		c    *checker
+		name string
+	}{{ca, "first body"}, {cb, "second body"}} {
+		for _, v := range x.c.res.Viols {
+			v.Class = "history_" + v.Class
+			v.What = "history " + orig.History + ", " + x.name + ": " + v.What
+			res.Viols = append(res.Viols, v)
+		}
+		for k, n := range x.c.res.Counters {
+			res.Counters[k] += n
+		}
+	}
+	res.Outcomes = append(res.Outcomes, fmt.Sprintf("history:%s:%s(%d spans) then %s(%d spans):first_read_back=%d", orig.History, a.Proto, len(a.Spans), bb.Proto, len(bb.Spans), na))
+	return res
+}
+
 func checkBatch(orig *Batch) *wkpool.CaseResult {
+	if orig.Then != nil {
+		return checkHistory(orig)
+	}
 	b := orig.expanded()
 	c := &checker{b: b, orig: orig, dropped: map[int]bool{}, res: &wkpool.CaseResult{Counters: map[string]int64{}}, seen: map[string]bool{}}
 	res := c.res
